@@ -544,6 +544,35 @@ impl<'a> Sim<'a> {
     }
 }
 
+/// Read-only per-host table sizes, for the verification harness
+/// (cargo feature `verif-hooks`; not part of the public API).
+#[cfg(feature = "verif-hooks")]
+#[doc(hidden)]
+#[derive(Debug, Clone, Copy, PartialEq, Eq, Default)]
+pub struct VerifHostTableCounts {
+    pub udp_binds: usize,
+    pub tcp_binds: usize,
+    pub tcp_streams: usize,
+    pub multicast_memberships: usize,
+}
+
+#[cfg(feature = "verif-hooks")]
+impl Sim<'_> {
+    #[doc(hidden)]
+    pub fn verif_host_table_counts(&self, addr: impl ToIpAddr) -> VerifHostTableCounts {
+        let mut world = self.world.borrow_mut();
+        let ip = world.lookup(addr);
+        let memberships = world.multicast_groups.verif_membership_count(ip);
+        let host = world.hosts.get(&ip).expect("host missing");
+        VerifHostTableCounts {
+            udp_binds: host.udp.verif_bind_count(),
+            tcp_binds: host.tcp.verif_bind_count(),
+            tcp_streams: host.tcp.verif_socket_count(),
+            multicast_memberships: memberships,
+        }
+    }
+}
+
 #[cfg(test)]
 mod test {
     use rand::Rng;
@@ -1304,34 +1333,5 @@ mod test {
         });
 
         sim.run()
-    }
-}
-
-/// Read-only per-host table sizes, for the verification harness
-/// (cargo feature `verif-hooks`; not part of the public API).
-#[cfg(feature = "verif-hooks")]
-#[doc(hidden)]
-#[derive(Debug, Clone, Copy, PartialEq, Eq, Default)]
-pub struct VerifHostTableCounts {
-    pub udp_binds: usize,
-    pub tcp_binds: usize,
-    pub tcp_streams: usize,
-    pub multicast_memberships: usize,
-}
-
-#[cfg(feature = "verif-hooks")]
-impl Sim<'_> {
-    #[doc(hidden)]
-    pub fn verif_host_table_counts(&self, addr: impl ToIpAddr) -> VerifHostTableCounts {
-        let mut world = self.world.borrow_mut();
-        let ip = world.lookup(addr);
-        let memberships = world.multicast_groups.verif_membership_count(ip);
-        let host = world.hosts.get(&ip).expect("host missing");
-        VerifHostTableCounts {
-            udp_binds: host.udp.verif_bind_count(),
-            tcp_binds: host.tcp.verif_bind_count(),
-            tcp_streams: host.tcp.verif_socket_count(),
-            multicast_memberships: memberships,
-        }
     }
 }
